@@ -268,11 +268,14 @@ theorem announce_decide (n : Node) (a : AliveMsg) (env : Env)
           have : ¬ a.inc < me.inc := by omega
           simp [h2, h3, decideKnown, hl, this]
 
-/-- **D. a healthy node announces itself** (`setAlive`, `UpdateNode`). -/
-theorem announce_healthy (n : Node) (addr port md : Nat) (vsn : List Nat) (env : Env)
-    (h : Healthy n) (hb : n.selfInc + 1 < u32)
+theorem mem_delTimer' {ts : List Timer} {name : String} {t : Timer} (h : t ∈ delTimer ts name) : t ∈ ts := by
+  simp only [delTimer, List.mem_filter] at h; exact h.1
+
+/-- **D. a node announces itself** (`setAlive`, `UpdateNode`), any state. -/
+theorem announce_sum (n : Node) (addr port md : Nat) (vsn : List Nat) (env : Env)
+    (hb : n.selfInc + 1 < u32)
     (hself : ∀ me, lookup n.recs n.cfg.self = some me → me.inc ≤ n.selfInc ∧ me.vsn.length = 6) :
-    (announce addr port md vsn env n).1.timers = [] ∧
+    (∀ t ∈ (announce addr port md vsn env n).1.timers, t ∈ n.timers) ∧
     (announce addr port md vsn env n).1.score = n.score ∧
     (announce addr port md vsn env n).1.hasLeft = n.hasLeft ∧
     (announce addr port md vsn env n).1.cfg = n.cfg ∧
@@ -287,13 +290,12 @@ theorem announce_healthy (n : Node) (addr port md : Nat) (vsn : List Nat) (env :
         (∀ o ∈ (announce addr port md vsn env n).2,
           (∀ m ∈ emit (announce addr port md vsn env n).1 (some (announceSrc addr port md vsn n)) o,
             m = .alive (announceSrc addr port md vsn n)) ∧ ∀ nm, o ≠ Out.leave nm))) := by
-  obtain ⟨hr, ht⟩ := h
   have hmod : (n.selfInc + 1) % u32 = n.selfInc + 1 := Nat.mod_eq_of_lt hb
   -- common part, for the announcement `a` actually processed
   have core : ∀ (a : AliveMsg), a.node = n.cfg.self → a.inc = n.selfInc + 1 → a.vsn.length = 6 →
       (∀ me, lookup n.recs n.cfg.self = some me → me.addr = a.addr ∧ me.port = a.port) →
       let r := aliveNode { n with selfInc := n.selfInc + 1 } a true true env
-      r.1.timers = [] ∧ r.1.score = n.score ∧ r.1.hasLeft = n.hasLeft ∧ r.1.cfg = n.cfg ∧
+      (∀ t ∈ r.1.timers, t ∈ n.timers) ∧ r.1.score = n.score ∧ r.1.hasLeft = n.hasLeft ∧ r.1.cfg = n.cfg ∧
       r.1.selfInc = n.selfInc + 1 ∧
       ((r.1.recs = n.recs ∧ r.2 = []) ∨
        (∃ R, R.st = .alive ∧ aliveOfRec R = a ∧ R.inc = n.selfInc + 1 ∧ R.vsn.length = 6 ∧ R.name = n.cfg.self ∧
@@ -310,13 +312,13 @@ theorem announce_healthy (n : Node) (addr port md : Nat) (vsn : List Nat) (env :
     simp only
     unfold aliveNode
     rcases hd with e | ⟨hnone, e⟩ | ⟨hsome, e⟩ <;> rw [e]
-    · simp [aliveApply, ht]
+    · simp [aliveApply]
     · simp only at hnone
       have hst : lookup (withStub { n with selfInc := n.selfInc + 1 } a).recs a.node = some (stub a) := by
         simp only [withStub]
         exact lookup_append_stub_self _ (stub a) (by simpa [stub, hs] using hnone)
       simp only [aliveApply, ↓reduceIte, hst, Option.getD_some]
-      refine ⟨by simp [withStub, ht, delTimer_nil], by first | rfl | trivial, by first | rfl | trivial, by first | rfl | trivial, by first | rfl | trivial, Or.inr ⟨acceptRec (stub a) a env, rfl, ?_, ?_, ?_, ?_, ?_, ?_⟩⟩
+      refine ⟨fun t ht => mem_delTimer' ht, by first | rfl | trivial, by first | rfl | trivial, by first | rfl | trivial, by first | rfl | trivial, Or.inr ⟨acceptRec (stub a) a env, rfl, ?_, ?_, ?_, ?_, ?_, ?_⟩⟩
       · simp [aliveOfRec, acceptRec, stub, hv, take6 hv]
       · simp [acceptRec, hinc]
       · simp [acceptRec, hv, take6 hv]
@@ -338,7 +340,7 @@ theorem announce_healthy (n : Node) (addr port md : Nat) (vsn : List Nat) (env :
       have hmn := lookup_name hme
       have hme' : lookup n.recs a.node = some me := by rw [hs]; exact hme
       simp only [aliveApply, Bool.false_eq_true, ↓reduceIte, hme', Option.getD_some]
-      refine ⟨by simp [ht, delTimer_nil], by first | rfl | trivial, by first | rfl | trivial, by first | rfl | trivial, by first | rfl | trivial, Or.inr ⟨acceptRec me a env, rfl, ?_, ?_, ?_, ?_, ?_, ?_⟩⟩
+      refine ⟨fun t ht => mem_delTimer' ht, by first | rfl | trivial, by first | rfl | trivial, by first | rfl | trivial, by first | rfl | trivial, Or.inr ⟨acceptRec me a env, rfl, ?_, ?_, ?_, ?_, ?_, ?_⟩⟩
       · simp only [aliveOfRec, acceptRec, hv, take6 hv, hmn, Nat.le_refl, ↓reduceIte]
         rw [← hs]
       · simp [acceptRec, hinc]
@@ -376,7 +378,34 @@ theorem announce_healthy (n : Node) (addr port md : Nat) (vsn : List Nat) (env :
       rcases c6 with c6 | ⟨R, r1, r2, r3, r4, r5, r6, r7⟩
       · exact Or.inl c6
       · exact Or.inr ⟨R, r1, r2, r3, r4, r5, c5, by simpa [hme] using r6, r7⟩
-    · simp [hv, ht]
+    · simp [hv]
+
+/-- **D (healthy).** -/
+theorem announce_healthy (n : Node) (addr port md : Nat) (vsn : List Nat) (env : Env)
+    (h : Healthy n) (hb : n.selfInc + 1 < u32)
+    (hself : ∀ me, lookup n.recs n.cfg.self = some me → me.inc ≤ n.selfInc ∧ me.vsn.length = 6) :
+    (announce addr port md vsn env n).1.timers = [] ∧
+    (announce addr port md vsn env n).1.score = n.score ∧
+    (announce addr port md vsn env n).1.hasLeft = n.hasLeft ∧
+    (announce addr port md vsn env n).1.cfg = n.cfg ∧
+    (announce addr port md vsn env n).1.selfInc ≤ n.selfInc + 1 ∧
+    n.selfInc ≤ (announce addr port md vsn env n).1.selfInc ∧
+    (((announce addr port md vsn env n).1.recs = n.recs ∧ (announce addr port md vsn env n).2 = []) ∨
+     (∃ R, R.st = .alive ∧ aliveOfRec R = announceSrc addr port md vsn n ∧ R.inc = n.selfInc + 1 ∧
+        R.vsn.length = 6 ∧ R.name = n.cfg.self ∧
+        (announce addr port md vsn env n).1.selfInc = n.selfInc + 1 ∧
+        (((lookup n.recs n.cfg.self).isSome ∧ (announce addr port md vsn env n).1.recs = setRec n.recs R) ∨
+         (lookup n.recs n.cfg.self = none ∧ (announce addr port md vsn env n).1.recs = n.recs ++ [R])) ∧
+        (∀ o ∈ (announce addr port md vsn env n).2,
+          (∀ m ∈ emit (announce addr port md vsn env n).1 (some (announceSrc addr port md vsn n)) o,
+            m = .alive (announceSrc addr port md vsn n)) ∧ ∀ nm, o ≠ Out.leave nm))) := by
+  obtain ⟨d1, rest⟩ := announce_sum n addr port md vsn env hb hself
+  refine ⟨?_, rest⟩
+  cases ht : (announce addr port md vsn env n).1.timers with
+  | nil => rfl
+  | cons t ts =>
+    have := d1 t (by rw [ht]; exact List.mem_cons_self)
+    rw [h.2] at this; cases this
 
 /-- **E. a healthy node leaves.** -/
 theorem leave_healthy (n : Node) (env : Env) (h : Healthy n) :
